@@ -69,6 +69,7 @@ OPS = {
                   lambda v, ws, w, p: to_signed(v[0], ws[0]) * to_signed(v[1], ws[1])),
     'And': (lambda par, n, a, o, p: py4hw.And(par, n, list(a), o), lambda v, ws, w, p: _fold(v, lambda x, y: x & y)),
     'Or': (lambda par, n, a, o, p: py4hw.Or(par, n, list(a), o), lambda v, ws, w, p: _fold(v, lambda x, y: x | y)),
+    'Xor': (lambda par, n, a, o, p: py4hw.Xor(par, n, list(a), o), lambda v, ws, w, p: _fold(v, lambda x, y: x ^ y)),
 }
 def _scalek_build(par, n, a, o, p):
     from .behav_blocks import ScaleK
@@ -98,6 +99,14 @@ def _poploop_build(par, n, a, o, p):
 OPS['PopLoop'] = (_poploop_build, lambda v, ws, w, p: bin(v[0]).count('1'))
 
 
+def _localar_build(par, n, a, o, p):
+    from .behav_blocks import LocalAR
+    return LocalAR(par, n, a[0], o)
+
+
+OPS['LocalAR'] = (_localar_build, lambda v, ws, w, p: ((v[0] + 1) * 3) & 65535)
+
+
 # Mealy: out = state + a (raw, reduced by the wire); the state is updated at the edge (see ref_trace)
 OPS['Mealy'] = (_mealy_build, None)
 OPS['BitSel'] = (_bitsel_build, lambda v, ws, w, p: (v[0] >> p['bit']) & 1)
@@ -119,7 +128,7 @@ def is_state(node):
 WIDTHS = [1, 1, 2, 3, 4, 7, 8, 9, 16, 31, 32, 33, 64]
 COMB_OPS_BASIC = ['And2', 'Or2', 'Xor2', 'Nand2', 'Not', 'Buf', 'Add', 'Sub', 'Mul', 'Neg', 'Mux2', 'Equal', 'Constant',
                   'ShiftLeftConstant', 'ShiftRightConstant', 'Range', 'Bit', 'ConcatenateLSBF', 'ConcatenateMSBF', 'SignExtend',
-                  'ZeroExtend', 'Repeat', 'EqualConstant', 'Sign', 'Abs', 'SignedMul', 'And', 'Or']
+                  'ZeroExtend', 'Repeat', 'EqualConstant', 'Sign', 'Abs', 'SignedMul', 'And', 'Or', 'Xor']
 
 
 @st.composite
@@ -244,8 +253,8 @@ def netlists(draw, max_nodes=20, min_nodes=1, ops=None, n_regs=(0, 0), reg_opts=
             new_node(op, [a[0]], 1, {'k': draw(st.one_of(st.integers(0, mask(wa)), st.sampled_from([0, mask(wa)])))})
         elif op == 'Sign':
             new_node(op, [a[0]], 1)
-        elif op in ('And', 'Or'):
-            k = draw(st.integers(1, 4))
+        elif op in ('And', 'Or', 'Xor'):
+            k = draw(st.integers(2 if op == 'Xor' else 1, 4))
             args = [a[0]] + [pick(wa)[0] for _ in range(k - 1)]
             new_node(op, args, wa)
         else:
